@@ -192,7 +192,7 @@ Arguments c_units {U} c.
    finished to their resume position (line 236-241); on the next page a cell that is absent
    from that map is given the stack {len(cell.Children): nil}: nothing is left of it (lines
    180-184).  When nothing of a continued cell fits on a page (newCell == nil, lines
-   221-225) the unchanged implementation resumes that cell at {0: nil}. *)
+   221-232) the cell resumes where it was (before /repo 7408964: at {0: nil}). *)
 Section RowSplit.
   Variable U : Type.
 
@@ -212,7 +212,8 @@ Section RowSplit.
     firstn p c ++ skipn (cell_skip absent_is_end (length c) (cell_record (length c) p)) c.
 
   (* a continued cell (skip position s) of which nothing fits on the second of three pages:
-     [restart] = true is tables.go:225 (resume at {0: nil}), false resumes where it was *)
+     [restart] = true is the code before /repo 7408964 (resume at {0: nil}), false resumes
+     where it was (the code now) *)
   Definition cell_three_pages (restart : bool) (c : list U) (s : nat) : list U :=
     firstn s c ++ [] ++ skipn (if restart then 0 else s) c.
 End RowSplit.
